@@ -292,7 +292,8 @@ func veFileInfo(path string) map[string]interface{} {
 	out["uniform"] = uniform
 	out["header"] = map[string]interface{}{"device": r.DeviceName(), "deviceid": r.DeviceID(), "brand": r.BrandName(),
 		"model": r.ModelName(), "serial": r.SerialNumber(), "firmware": r.FirmwareVersion(), "resx": r.ResX(), "resy": r.ResY(),
-		"fps": r.FPS(), "preview": r.PreviewSecs(), "motion": r.MotionConfig()}
+		"fps": r.FPS(), "preview": r.PreviewSecs(), "motion": r.MotionConfig(),
+		"lat": f32s(r.Latitude()), "long": f32s(r.Longitude()), "alt": f32s(r.Altitude()), "acc": f32s(r.Accuracy())}
 	return out
 }
 
